@@ -1,11 +1,181 @@
 (** C13 -- target manager: strict per-target session discipline; silence after
-    Remove.  Only theorem statements closed by [exact]; proofs are in
-    Manager/ManagerProofs.v. *)
+    Remove.  Only theorem statements closed by [exact]; proofs and the
+    [Example]s showing that the hypotheses are satisfiable ([log0_emitted],
+    [log0_run_quiescent], [log0_shape], [loop_state_reachable],
+    [finished_state_reachable], [cause_partial_nonvacuous]) are in
+    Manager/ManagerProofs.v and Manager/ManagerProofs2.v.
+
+    [run c init tr s]: the model of manager.go can produce the per-name log
+    [tr] (markers of the client's Add/Remove/Reconnect calls, every environment
+    query with its answer, every callback) and be in state [s] afterwards; the
+    environment's answers and the moments of Remove/Reconnect are unconstrained,
+    so every statement below holds for all fault scripts and all timings. *)
 From Coq Require Import List Bool ZArith NArith.
 Import ListNotations.
-From Gnmi Require Import Manager.ManagerModel Manager.ManagerCheck Manager.ManagerProofs.
+From Gnmi Require Import Manager.ManagerModel Manager.ManagerCheck Manager.ManagerProofs
+  Manager.ManagerProofs2.
 
-Theorem C13_unknown_remove_refused_step :
-  forall c s, managed s = false -> vis c s (ERemoveReturned true) = [].
-Proof. exact unknown_remove_refused_step. Qed.
-Print Assumptions C13_unknown_remove_refused_step.
+(** every producible log projects on a prefix of the session language
+    ( CE ME | [Connect (Update|Sync)*] Reset CE ME )*, the DFA state being
+    determined by the goroutine's control point *)
+Theorem C13_trace_in_language :
+  forall c tr s, run c init tr s ->
+  exists d, drun D0 (callbacks tr) = Some d /\ Rlang (s_pc s) d.
+Proof. exact trace_in_language. Qed.
+Print Assumptions C13_trace_in_language.
+
+(** ... and on a word of it, read declaratively, whenever the goroutine is
+    between attempts (always the case once Remove has returned) *)
+Theorem C13_complete_sessions :
+  forall c tr s, run c init tr s -> quiescent (s_pc s) = true -> sessions (callbacks tr).
+Proof. exact model_sessions. Qed.
+Print Assumptions C13_complete_sessions.
+
+(** Connect is reported only directly after the first message of a new stream *)
+Theorem C13_connect_after_first_msg :
+  forall c a b s, run c init (a ++ CConnect :: b) s ->
+  exists a' x, gor a = a' ++ [ESend true; ERecv (RMsg x)].
+Proof. exact connect_after_first_msg. Qed.
+Print Assumptions C13_connect_after_first_msg.
+
+(** an Update callback carries the notification just received (next letter
+    after its Recv, or after the Connect that the first message triggers) *)
+Theorem C13_updates_within_session_update :
+  forall c a n b s, run c init (a ++ CUpdate n :: b) s ->
+  ends_with (gor a) [ERecv (RMsg (MUpdate n))]
+  \/ ends_with (gor a) [ERecv (RMsg (MUpdate n)); CConnect].
+Proof. exact update_after_its_message. Qed.
+Print Assumptions C13_updates_within_session_update.
+
+Theorem C13_updates_within_session_sync :
+  forall c a b s, run c init (a ++ CSync :: b) s ->
+  ends_with (gor a) [ERecv (RMsg MSync)] \/ ends_with (gor a) [ERecv (RMsg MSync); CConnect].
+Proof. exact sync_after_its_message. Qed.
+Print Assumptions C13_updates_within_session_sync.
+
+(** whole-log structure: the goroutine's letters are letters outside streams
+    and complete streams  Send; (Recv m; [Connect if first]; callback of m)*;
+    failed Recv; Reset  -- delivery in stream order, nothing else delivered,
+    between the Connect and the Reset of that stream *)
+Theorem C13_updates_within_session :
+  forall c tr s, run c init tr s -> quiescent (s_pc s) = true -> wf_log (gor tr).
+Proof. exact model_wf_log. Qed.
+Print Assumptions C13_updates_within_session.
+
+(** every opened stream is ended by exactly one Reset before the next stream
+    (and there is no Reset without a stream) *)
+Theorem C13_one_reset_per_stream :
+  forall c tr s, run c init tr s -> quiescent (s_pc s) = true -> alt false (gor tr) = true.
+Proof. exact one_reset_per_stream. Qed.
+Print Assumptions C13_one_reset_per_stream.
+
+(** retry_forever (enabledness): the goroutine is never stuck and accepts every
+    answer of the environment; *)
+Theorem C13_retry_forever_enabled : forall c s, gor_ready c s.
+Proof. exact goroutine_enabled. Qed.
+Print Assumptions C13_retry_forever_enabled.
+
+(** a failed attempt always reports ConnectError, MonitorError and is back at
+    the loop; *)
+Theorem C13_retry_forever_failure_returns :
+  forall c s, s_pc s = PCE -> run c s [CConnErr; CMonErr] (set_pc s PLoop).
+Proof. exact failure_returns_to_loop. Qed.
+Print Assumptions C13_retry_forever_failure_returns.
+
+(** from the loop, while the context is not cancelled, the only way on is the
+    next attempt; *)
+Theorem C13_retry_forever_loop :
+  forall c s, s_pc s = PLoop -> s_cdone s = false ->
+  (exists s', In s' (tau c s) /\ s_pc s' = PMeta)
+  /\ (forall s', In s' (tau c s) -> s_pc s' = PLoop \/ s_pc s' = PMeta).
+Proof. exact loop_retries. Qed.
+Print Assumptions C13_retry_forever_loop.
+
+(** and the context is cancelled / the goroutine ends only after Remove was called *)
+Theorem C13_retry_forever_exit_only_by_remove :
+  forall c tr s, run c init tr s -> s_pc s = PFinished -> s_rmc s = true.
+Proof. exact finished_only_after_remove. Qed.
+Print Assumptions C13_retry_forever_exit_only_by_remove.
+
+(** once Remove has returned there is no callback and no environment query
+    for that name until Add is called again *)
+Theorem C13_silence_after_remove :
+  forall c a b e b' s,
+  run c init (a ++ ERemoveReturned true :: b ++ e :: b') s -> is_gor e = true -> In EAddCalled b.
+Proof. exact silence_after_remove. Qed.
+Print Assumptions C13_silence_after_remove.
+
+Theorem C13_duplicate_add_refused :
+  forall c a m ok s, run c init (a ++ EAdd true :: m ++ [EAdd ok]) s ->
+  no_remove_ok m = true -> ok = false.
+Proof. exact duplicate_add_refused. Qed.
+Print Assumptions C13_duplicate_add_refused.
+
+Theorem C13_unknown_remove_refused :
+  forall c m ok s, run c init (m ++ [ERemoveReturned ok]) s -> no_add_ok m = true -> ok = false.
+Proof. exact unknown_remove_refused. Qed.
+Print Assumptions C13_unknown_remove_refused.
+
+Theorem C13_removed_remove_refused :
+  forall c a ok0 m ok s,
+  run c init (a ++ ERemoveReturned ok0 :: m ++ [ERemoveReturned ok]) s ->
+  no_add_ok m = true -> ok = false.
+Proof. exact removed_remove_refused. Qed.
+Print Assumptions C13_removed_remove_refused.
+
+(** mode A: a log accepted by the executable subset construction is a log of
+    the model, ending with the name unmanaged; hence everything above holds of it *)
+Theorem C13_accepts_sound :
+  forall c tr, accepts c tr = true -> exists s, run c init tr s /\ final s = true.
+Proof. exact accepts_sound. Qed.
+Print Assumptions C13_accepts_sound.
+
+Theorem C13_accepts_spec :
+  forall c tr, accepts c tr = true ->
+  emits c tr /\ sessions (callbacks tr) /\ k_stream tr = true /\ k_silence false tr = true.
+Proof. exact accepts_spec. Qed.
+Print Assumptions C13_accepts_spec.
+
+(** soundness of the executable property checkers K_P applied to the
+    implementation's logs *)
+Theorem C13_k_lang_sound : forall tr, k_lang tr = true -> sessions (callbacks tr).
+Proof. exact k_lang_sound. Qed.
+Print Assumptions C13_k_lang_sound.
+
+Theorem C13_k_stream_sound : forall tr, k_stream tr = true -> wf_log (gor tr).
+Proof. exact k_stream_sound. Qed.
+Print Assumptions C13_k_stream_sound.
+
+Theorem C13_k_silence_sound :
+  forall tr, k_silence false tr = true ->
+  forall a b e b', tr = a ++ ERemoveReturned true :: b ++ e :: b' -> is_gor e = true ->
+                   In EAddCalled b.
+Proof. exact k_silence_sound. Qed.
+Print Assumptions C13_k_silence_sound.
+
+Theorem C13_k_refuse_sound_add :
+  forall a m ok, k_refuse false (a ++ EAdd true :: m ++ [EAdd ok]) = true ->
+  no_remove_ok m = true -> ok = false.
+Proof. exact duplicate_add_refused_k. Qed.
+Print Assumptions C13_k_refuse_sound_add.
+
+(** the model satisfies the refusal and silence monitors on every log *)
+Theorem C13_model_refusals : forall c tr s, run c init tr s -> k_refuse false tr = true.
+Proof. exact model_refusals. Qed.
+Print Assumptions C13_model_refusals.
+
+(** attribution of cancellations.  Full statement (false of the code as it is
+    now, see C13_cancel_attributed_refuted and DEFECT C13_1; true once
+    ManagerModel.stale_reconnect_by_name is false):
+      forall c tr s, run c init tr s -> k_cause (c_timeout c) 0 false tr = true
+    Proved for logs in which the name has not been removed before: *)
+Theorem C13_cancel_attributed_partial :
+  forall c tr s, run c init tr s -> readded tr = false ->
+  k_cause (c_timeout c) 0 false tr = true.
+Proof. exact cause_partial. Qed.
+Print Assumptions C13_cancel_attributed_partial.
+
+Theorem C13_cancel_attributed_refuted :
+  exists c tr, emits c tr /\ k_cause (c_timeout c) 0 false tr = false /\ readded tr = true.
+Proof. exact cause_refuted. Qed.
+Print Assumptions C13_cancel_attributed_refuted.
